@@ -11,17 +11,25 @@ fn variant_of_pat(p: &Pat) -> R<String> {
     }
 }
 
-fn classify_eq(body: &Expr) -> String {
-    let t = norm_tokens(body);
-    match t.as_str() {
-        "l == r" | "{ l == r }" => "derived".into(),
-        "cmp_f32 (l , r)" => "f32".into(),
-        "cmp_f64 (l , r)" => "f64".into(),
-        "cmp_json (l , r)" => "json".into(),
-        "cmp_vector (l , r)" => "vector".into(),
-        "{ ty_l == ty_r && values_l == values_r }" | "ty_l == ty_r && values_l == values_r" => "array".into(),
-        other => format!("unknown:{other}"),
+/// the binders of a one-field tuple-struct pattern (`Self::X(l)`), or of the two-field array pattern
+fn binders(p: &Pat) -> Vec<String> {
+    match p {
+        Pat::TupleStruct(ts) => ts.elems.iter().map(|e| norm_tokens(e)).collect(),
+        Pat::Reference(r) => binders(&r.pat),
+        _ => Vec::new(),
     }
+}
+
+fn classify_eq(body: &Expr, l: &[String], r: &[String]) -> String {
+    let t = norm_tokens(body);
+    let t = t.strip_prefix("{ ").and_then(|x| x.strip_suffix(" }")).unwrap_or(&t).to_string();
+    if l.len() == 1 && r.len() == 1 {
+        let (a, b) = (&l[0], &r[0]);
+        if t == format!("{a} == {b}") { return "derived".into(); }
+        for k in ["f32", "f64", "json", "vector"] { if t == format!("cmp_{k} ({a} , {b})") { return k.into(); } }
+    }
+    if l.len() == 2 && r.len() == 2 && t == format!("{} == {} && {} == {}", l[0], r[0], l[1], r[1]) { return "array".into(); }
+    format!("unknown:{t}")
 }
 
 fn classify_hash(body: &Expr, binder: &str) -> String {
@@ -57,8 +65,8 @@ pub fn generate(repo: &Path) -> R<Vec<(String, String)>> {
     let mut eq_fall = false;
     let mut hash_arms: Vec<(String, String)> = Vec::new();
     let mut hash_disc = false;
-    let mut bodies_ok = true;
-    let mut notes = Vec::new();
+    let bodies_ok = true;
+    let notes: Vec<String> = Vec::new();
     for it in m {
         match it {
             Item::Impl(im) if type_name(&im.self_ty) == "Value" => {
@@ -74,7 +82,10 @@ pub fn generate(repo: &Path) -> R<Vec<(String, String)>> {
                                 match &arm.pat {
                                     Pat::Wild(_) => { eq_fall = norm_tokens(&*arm.body) == "false"; }
                                     Pat::Tuple(t) if t.elems.len() == 2 => {
-                                        eq_arms.push((variant_of_pat(&t.elems[0])?, variant_of_pat(&t.elems[1])?, classify_eq(&arm.body)));
+                                        let k = classify_eq(&arm.body, &binders(&t.elems[0]), &binders(&t.elems[1]));
+                                        // a shape this translator does not know is "cannot read", not "wrong": the correspondence decides
+                                        if k.starts_with("unknown:") { return Err(format!("PartialEq::eq arm for {}: unrecognised comparison `{}`", variant_of_pat(&t.elems[0])?, &k[8..])); }
+                                        eq_arms.push((variant_of_pat(&t.elems[0])?, variant_of_pat(&t.elems[1])?, k));
                                     }
                                     other => return Err(format!("unexpected arm pattern `{}` in PartialEq::eq", norm_tokens(other))),
                                 }
@@ -88,8 +99,11 @@ pub fn generate(repo: &Path) -> R<Vec<(String, String)>> {
                                         if norm_tokens(&*mt.expr) != "self" { return Err("Hash::hash does not match on self".into()); }
                                         for arm in &mt.arms {
                                             let v = variant_of_pat(&arm.pat)?;
-                                            let binder = match &arm.pat { Pat::TupleStruct(ts) if ts.elems.len() == 1 => norm_tokens(&ts.elems[0]), _ => String::new() };
-                                            hash_arms.push((v, classify_hash(&arm.body, &binder)));
+                                            let bs = binders(&arm.pat);
+                                            let k = if bs.len() == 2 && norm_tokens(&*arm.body).replace("{ ", "").replace(" }", "").replace(" ;", "") == format!("{} . hash (state) {} . hash (state)", bs[0], bs[1]) { "array".to_string() }
+                                                else { classify_hash(&arm.body, bs.first().map(|x| x.as_str()).unwrap_or("")) };
+                                            if k.starts_with("unknown:") { return Err(format!("Hash::hash arm for {v}: unrecognised hashing `{}`", &k[8..])); }
+                                            hash_arms.push((v, k));
                                         }
                                     }
                                     _ => {}
@@ -103,7 +117,7 @@ pub fn generate(repo: &Path) -> R<Vec<(String, String)>> {
                 let name = f.sig.ident.to_string();
                 if let Some((_, want)) = REF_BODIES.iter().find(|(n, _)| *n == name) {
                     let got = norm_tokens(&f.block);
-                    if got != *want { bodies_ok = false; notes.push(format!("{name}: body differs from the modelled one")); }
+                    if got != *want { return Err(format!("{name}: the body is not the modelled one (cannot be read by this translator)")); }
                 }
             }
             _ => {}
